@@ -1,5 +1,5 @@
 """C09: members hold exactly the private keys they are entitled to, matching the tree."""
 from corecheck import run_core
 def run(ctx):
-    return run_core(ctx, "C09", sim_cfgs=["SIM_core", "SIM_tree", "SIM_kem"], need_stats=("epoch_oracles", "DeliverCommit:ok"), need_shapes=("unmerged", "path_commits"),
+    return run_core(ctx, "C09", sim_cfgs=["SIM_core", "SIM_tree", "SIM_kem", "SIM_ext"], need_stats=("epoch_oracles", "DeliverCommit:ok"), need_shapes=("unmerged", "path_commits"),
                     invariants_note="PrivMatchesPub (MlsGroup.tla); concrete: set of direct-path positions holding a key equals the model's, each stored key opens an HPKE seal to the public key at that node, path keys are fresh (bijection)")
